@@ -25,17 +25,22 @@ pub trait GraphRef: Copy + GraphBase {}
 /// Access to the neighbors of each node
 pub trait IntoNeighbors : GraphRef {
     type Neighbors: Iterator<Item=Self::NodeId>/*+*/;
+    /// the representation invariant of the graph value (true in every reachable state; established per type by the
+    /// data-structure units), under which the methods below may be called
+    spec fn inv(self) -> bool;
     /// which identifiers denote nodes of the graph
     spec fn is_node(self, a: Self::NodeId) -> bool;
     /// the successors of `a` in iteration order (empty for a non-node)
     spec fn succ(self, a: Self::NodeId) -> Seq<Self::NodeId>;
     /// successors are nodes, and only nodes have successors
     proof fn succ_law(self, a: Self::NodeId)
+        requires self.inv()
         ensures forall|i: int| 0 <= i < self.succ(a).len() ==> self.is_node(#[trigger] self.succ(a)[i]),
             !self.is_node(a) ==> self.succ(a).len() == 0/*-*/;
     /// Return an iterator of the neighbors of node `a`.
     fn neighbors(self, a: Self::NodeId) -> (r: Self::Neighbors)
-        /*+*/ensures r.obeys_prophetic_iter_laws(), r.decrease() is Some, r.remaining() == self.succ(a)/*-*/;   // [neighbors_is_succ]
+        /*+*/requires self.inv()
+        ensures r.obeys_prophetic_iter_laws(), r.decrease() is Some, r.remaining() == self.succ(a)/*-*/;   // [neighbors_is_succ]
 }
 //@ end
 
